@@ -152,6 +152,32 @@ func (m *c17mon) Post(s *sim.Sim, st *sim.Step) []*sim.Violation {
 			}
 		}
 	}
+	// (a') the server-side session store is storage too: no value a session holds after the request contains
+	// a password, a one-time / recovery code or a mailed token in plaintext
+	if rec.Kind == "http" {
+		for _, bs := range s.Br {
+			sess := s.W.Sess.Of(bs.B)
+			for _, k := range world.SortedKeys(sess) {
+				v := sess[k]
+				if len(v) < 8 {
+					continue
+				}
+				for _, sc := range secs {
+					if strings.HasPrefix(sc.label, "remember-") || strings.HasPrefix(sc.label, "ev-") {
+						// the cookie is the client's to hold (its parts are judged in the token rows); the 2FA
+						// e-mail-verification token is kept in the session by design (compared with the link when
+						// it comes back) and is not among the kinds the storage clause lists
+						continue
+					}
+					if strings.Contains(v, sc.val) {
+						vs = append(vs, vio("C17", "plaintext-in-session-store|"+sc.label+"|"+k, "after the request the session of b%d holds a %s in plaintext under key %q", bs.B.ID, sc.label, k))
+						break
+					}
+				}
+			}
+		}
+		m.stats.Count("session-stores-scanned")
+	}
 	// (c) mailed tokens only go to the account's own addresses
 	for _, ml := range rec.Mails {
 		m.stats.Count("mails-checked")
@@ -378,7 +404,7 @@ func init() {
 	prof.W["confirm"], prof.W["recover_end"], prof.W["recover_start"], prof.W["admin_startconfirm"], prof.W["otp_add"], prof.W["regen"] = 8, 9, 6, 4, 8, 2
 	register(&Check{
 		ID: "C17", Level: "exploration",
-		Rule:  "mixed histories over all flows and module subsets (the C01 generator) with extra weight on near-valid submissions — a valid token followed by one stray character, a valid token in a URL with a broken percent-escape elsewhere — because those make a library log what it received; a live recovery code or the password typed into the CODE field of the 2FA validate/remove pages. Secret ledger: every password the harness seeded or typed (incl. wrong ones), every OTP and recovery code shown or seeded, every remember cookie value plus its decoded token, nonce and std-base64 form, every mailed token in URL form, std-base64 form and decoded bytes (all >= 8 bytes). After every request: substring search of every changed/created stored field and new token row, and of every log line the request produced (shipped defaults.Logger); every stored password must be bcrypt-shaped; every mail carrying a token — including a string that was mailed before — must be addressed only to the addresses of every account that string was ever mailed for. distinct_nontrivial = distinct (action, class, log line shapes, fields changed) signatures.",
+		Rule:  "mixed histories over all flows and module subsets (the C01 generator) with extra weight on near-valid submissions — a valid token followed by one stray character, a valid token in a URL with a broken percent-escape elsewhere — because those make a library log what it received; a live recovery code or the password typed into the CODE field of the 2FA validate/remove pages. Secret ledger: every password the harness seeded or typed (incl. wrong ones), every OTP and recovery code shown or seeded, every remember cookie value plus its decoded token, nonce and std-base64 form, every mailed token in URL form, std-base64 form and decoded bytes (all >= 8 bytes). After every request: substring search of every changed/created stored field and new token row, and of every log line the request produced (shipped defaults.Logger); every stored password must be bcrypt-shaped; every mail carrying a token — including a string that was mailed before — must be addressed only to the addresses of every account that string was ever mailed for. After every request every value of every server-side session is searched for the ledger's passwords, one-time / recovery codes and confirm / recover tokens too (the 2FA e-mail-verification token is kept there by design and excluded). distinct_nontrivial = distinct (action, class, log line shapes, fields changed) signatures.",
 		Units: func(t string) int { return tierN(t, 600, 25000) },
 		Run: func(c *RunCtx, unit int) {
 			if unit%100 == 0 {
